@@ -117,6 +117,7 @@ def run_isolated(fn, arg, timeout=60.0):
 # per-run execution inside workers
 
 _CHECK = None
+_HISTORY = []  # run indices this process has executed so far (worker-local)
 
 
 def _load_check(prop):
@@ -134,7 +135,14 @@ def _worker_init(prop):
 
 
 def _exec_desc(desc):
-    """Executed in the isolated child: returns the full result."""
+    """Executes one run description. A description {"__chain__": [d1..dn]} executes
+    d1..dn in this order in one process and reports the last one's result (used when a
+    violation only shows after earlier runs of the same worker process left state behind)."""
+    if isinstance(desc, dict) and "__chain__" in desc:
+        res = None
+        for d in desc["__chain__"]:
+            res = _exec_desc(d)
+        return res
     res = _CHECK.execute(desc)
     res.setdefault("events", [])
     res.setdefault("violations", [])
@@ -151,7 +159,12 @@ def execute_desc(check, desc, timeout=None):
     timeout = timeout or getattr(check, "RUN_TIMEOUT", 60.0)
     if getattr(check, "ISOLATE", False):
         return run_isolated(_exec_desc, desc, timeout)
-    return json.loads(json.dumps(_exec_desc(desc), default=str))
+    try:
+        return json.loads(json.dumps(_exec_desc(desc), default=str))
+    except HarnessFault:
+        raise
+    except BaseException:
+        raise HarnessFault(traceback.format_exc())
 
 
 def _run_chunk(args):
@@ -161,6 +174,8 @@ def _run_chunk(args):
         rs = derive_seed(verif_seed, prop, tier, idx)
         rng = random.Random(rs)
         t0 = time.monotonic()
+        prior = list(_HISTORY)
+        _HISTORY.append(idx)
         try:
             desc = _CHECK.generate(rng, tier)
             res = execute_desc(_CHECK, desc)
@@ -185,6 +200,8 @@ def _run_chunk(args):
         if res["violations"] or idx in keep_events_for:
             rec["desc"] = desc
             rec["events"] = res["events"][:400]
+        if res["violations"]:
+            rec["prior"] = prior
         out.append(rec)
     return out
 
@@ -215,8 +232,12 @@ def known_match(known, prop, viol):
 
 
 def _fails_same(check, desc, clause, known, prop):
+    """Executed from the driver process: always in a forked child, so the driver
+    itself never carries state from a run."""
+    global _CHECK
+    _CHECK = check
     try:
-        res = execute_desc(check, desc)
+        res = run_isolated(_exec_desc, desc, getattr(check, "RUN_TIMEOUT", 60.0) * 3)
     except HarnessFault:
         return None
     for v in res["violations"]:
@@ -231,11 +252,35 @@ def minimise(check, desc, clause, known, prop, budget_s=60.0, log=None):
     if not hasattr(check, "shrink"):
         return desc
     t_end = time.monotonic() + budget_s
+
+    def candidates(d):
+        if isinstance(d, dict) and "__chain__" in d:
+            ch = d["__chain__"]
+            pre, last = ch[:-1], ch[-1]
+            if not pre:
+                yield last
+                return
+            yield last
+            size = max(1, len(pre) // 2)
+            while size >= 1:
+                for i in range(0, len(pre), size):
+                    yield {"__chain__": pre[:i] + pre[i + size:] + [last]}
+                if size == 1:
+                    break
+                size //= 2
+            if len(pre) <= 3:
+                for c in check.shrink(last):
+                    yield {"__chain__": pre + [c]}
+                for j, pj in enumerate(pre):
+                    for c in check.shrink(pj):
+                        yield {"__chain__": pre[:j] + [c] + pre[j + 1:] + [last]}
+        else:
+            yield from check.shrink(d)
     improved = True
     steps = 0
     while improved and time.monotonic() < t_end:
         improved = False
-        for cand in check.shrink(desc):
+        for cand in candidates(desc):
             if time.monotonic() >= t_end:
                 break
             steps += 1
@@ -392,6 +437,7 @@ def run_batch(prop, tier, verif_seed, n_runs=None, workers=None, budget_s=None, 
 
     # violations: classify known / new; minimise and write replay for new ones
     known_hits = {}
+    unconfirmed = []
     new_reports = []
     seen_new_sigs = set()
     os.makedirs(REPLAY_DIR, exist_ok=True)
@@ -404,17 +450,23 @@ def run_batch(prop, tier, verif_seed, n_runs=None, workers=None, budget_s=None, 
                 known_hits.setdefault(k["signature"] + "|" + k["clause"], [k, 0])[1] += 1
                 continue
             key = (v.get("clause"), v.get("sig"))
-            if key in seen_new_sigs or len(new_reports) >= 5:
+            if key in seen_new_sigs or len(new_reports) >= 3:
                 seen_new_sigs.add(key)
                 continue
             seen_new_sigs.add(key)
             desc = r["desc"]
             confirm = _fails_same(check, desc, v["clause"], known, prop)
+            if confirm is None and r.get("prior"):
+                # state left behind by earlier runs of the same worker: replay the worker's history
+                prior = r["prior"][-300:]
+                chain = [check.generate(random.Random(derive_seed(verif_seed, prop, tier, j)), tier) for j in prior]
+                desc = {"__chain__": chain + [desc]}
+                confirm = _fails_same(check, desc, v["clause"], known, prop)
             if confirm is None:
-                harness_faults.append(f"violation in run {i} did not reproduce on re-execution: {v}")
+                unconfirmed.append(f"violation in run {i} did not reproduce on re-execution: {str(v)[:300]}")
                 continue
             log = {}
-            small = minimise(check, desc, v["clause"], known, prop, shrink_budget, log)
+            small = minimise(check, desc, v["clause"], known, prop, shrink_budget if not new_reports else shrink_budget / 4, log)
             final = _fails_same(check, small, v["clause"], known, prop)
             if final is None:
                 small, final = desc, confirm
@@ -428,6 +480,8 @@ def run_batch(prop, tier, verif_seed, n_runs=None, workers=None, budget_s=None, 
                            "events": final["events"][:400], "shrink": log}, f, indent=1, default=str)
             new_reports.append((path, fv))
 
+    if unconfirmed and not new_reports:
+        harness_faults.extend(unconfirmed[:3])
     wall = time.monotonic() - t_start
     for key, (k, n) in sorted(known_hits.items()):
         print(f"KNOWN-FINDING: property={prop} {k['what']} (hit {n}x this run)")
